@@ -1,12 +1,580 @@
-//! Family `parsers`: C05 — parser totality.  (stub)
-#![allow(unused)]
+//! Family `parsers`: C05 — parser totality on arbitrary bytes.
+//!
+//! case line : `<id> parse <entry> <hex>`
+//! impl line : `<id> <class> req=<ok|BIG:n> reser=<ok|err|panic|-> <content>`
+//!   class    : `ok`, `err`, `panic` (`abort` is written by `run-isolated` when the process dies)
+//!   req      : largest single allocation request while parsing, `ok` when <= 256*len + 64 KiB
+//!   reser    : outcome class of re-serialising an accepted value
+//!   content  : `clean <canonical dump>` when every decoded string lies in the sub-codec alphabet and
+//!              the input holds no BOM-like byte pair, else `dirty <coarse counts>`
+//!
+//! Entries: binLE binBE textSjisLE textSjisBE textUniLE textUniBE arc pack aset asset.
 use crate::util::*;
+use indexmap::IndexMap;
+use mila::*;
 
-pub fn gen(_seed: u64, _tier: &str) -> Vec<String> {
-    Vec::new()
+pub const ENTRIES: [&str; 10] = [
+    "binLE", "binBE", "textSjisLE", "textSjisBE", "textUniLE", "textUniBE", "arc", "pack", "aset", "asset",
+];
+
+// ------------------------------------------------------------------------------------------
+// alphabet shared with the Lean sub-codec (Model/Codec.lean)
+// ------------------------------------------------------------------------------------------
+
+pub fn in_sub_alphabet(s: &str) -> bool {
+    s.chars().all(|c| {
+        let u = c as u32;
+        (1..0x80).contains(&u)
+            || (0xFF61..=0xFF9F).contains(&u)
+            || (0x3041..=0x3093).contains(&u)
+            || (0x30A1..=0x30F6).contains(&u)
+    })
+}
+
+/// Input bytes that make `encoding_rs`' BOM sniffing kick in somewhere are not compared in detail.
+pub fn tainted(bytes: &[u8]) -> bool {
+    bytes.windows(2).any(|w| matches!(w, [0xFE, 0xFF] | [0xFF, 0xFE] | [0xEF, 0xBB]))
+}
+
+const WORDS: [&str; 14] = [
+    "a", "Count", "Info", "MID_A", "xyz", "ｱｲｳ", "あいう", "ソース", "ポ", "", "name_01", "AnimClipNameTable", "T", "m/x.bin",
+];
+
+fn word(rng: &mut Rng) -> String {
+    rng.pick(&WORDS).to_string()
+}
+fn nonempty_word(rng: &mut Rng) -> String {
+    loop {
+        let w = word(rng);
+        if !w.is_empty() {
+            return w;
+        }
+    }
+}
+
+// ------------------------------------------------------------------------------------------
+// valid seed files, built with the library's own writers
+// ------------------------------------------------------------------------------------------
+
+fn seed_bin(rng: &mut Rng, endian: Endian) -> Vec<u8> {
+    let mut a = BinArchive::new(endian);
+    let cells = rng.below(8) as usize;
+    a.allocate_at_end(cells * 4 + rng.below(4) as usize);
+    for c in 0..cells {
+        match rng.below(5) {
+            0 => a.write_string(c * 4, Some(&word(rng))).unwrap(),
+            1 => a.write_pointer(c * 4, Some(rng.below(cells as u64 + 1) as usize * 4)).unwrap(),
+            2 => a.write_u32(c * 4, rng.next() as u32).unwrap(),
+            _ => {}
+        }
+        if rng.chance(1, 3) {
+            a.write_label(c * 4, &nonempty_word(rng)).unwrap();
+        }
+    }
+    if rng.chance(1, 3) {
+        a.write_label(a.size(), "end").unwrap();
+    }
+    a.serialize().unwrap()
+}
+
+fn seed_text(rng: &mut Rng, format: TextArchiveFormat, endian: Endian) -> Vec<u8> {
+    let mut t = TextArchive::new(format, endian);
+    t.set_title(word(rng));
+    for i in 0..rng.below(5) {
+        t.set_message(&format!("K{}{}", i, nonempty_word(rng)), &word(rng));
+    }
+    t.serialize().unwrap()
+}
+
+pub fn build_arc(files: &[(String, Vec<u8>)], padded: bool, rng: &mut Rng) -> Vec<u8> {
+    let mut a = BinArchive::new(Endian::Little);
+    let hdr = if padded { 0x60 } else { 0 };
+    let mut body = Vec::new();
+    let mut offsets = Vec::new();
+    if !padded {
+        body.extend_from_slice(&[0x12, 0x34, 0x56, 0x78]); // first word non-zero
+    }
+    for (_, b) in files {
+        offsets.push(body.len());
+        body.extend_from_slice(b);
+        while body.len() % 4 != 0 {
+            body.push(0xEE);
+        }
+    }
+    let count_at = hdr + body.len();
+    let info_at = count_at + 4;
+    a.allocate_at_end(info_at + 16 * files.len());
+    if !body.is_empty() {
+        a.write_bytes(hdr, &body).unwrap();
+    }
+    a.write_label(count_at, "Count").unwrap();
+    a.write_u32(count_at, files.len() as u32).unwrap();
+    a.write_label(info_at, "Info").unwrap();
+    let mut order: Vec<usize> = (0..files.len()).collect();
+    rng.shuffle(&mut order);
+    for (slot, &i) in order.iter().enumerate() {
+        let at = info_at + 16 * slot;
+        a.write_string(at, Some(&files[i].0)).unwrap();
+        a.write_u32(at + 4, i as u32).unwrap();
+        a.write_u32(at + 8, files[i].1.len() as u32).unwrap();
+        a.write_u32(at + 12, offsets[i] as u32).unwrap();
+    }
+    a.serialize().unwrap()
+}
+
+fn seed_arc(rng: &mut Rng) -> Vec<u8> {
+    let n = rng.below(4) as usize;
+    let mut files = Vec::new();
+    for i in 0..n {
+        let len = rng.below(10) as usize;
+        files.push((format!("f{}{}", i, word(rng)), rng.bytes(len)));
+    }
+    let padded = rng.chance(1, 2);
+    build_arc(&files, padded, rng)
+}
+
+fn seed_pack(rng: &mut Rng) -> Vec<u8> {
+    let mut m: IndexMap<String, Vec<u8>> = IndexMap::new();
+    for i in 0..rng.below(4) {
+        let len = rng.below(40) as usize;
+        m.insert(format!("p{}{}", i, word(rng)), rng.bytes(len));
+    }
+    fe9_arc::serialize(&m).unwrap()
+}
+
+fn seed_aset(rng: &mut Rng) -> Vec<u8> {
+    let mut f = ASetFile::new(if rng.chance(1, 2) { Some(word(rng)) } else { None });
+    for _ in 0..257 {
+        f.anim_clip_table.push(if rng.chance(1, 20) { Some(word(rng)) } else { None });
+    }
+    for _ in 0..rng.below(3) {
+        let mut set: Vec<Option<String>> = vec![None; 257];
+        if rng.chance(2, 3) {
+            set[0] = Some(nonempty_word(rng));
+        }
+        for _ in 0..rng.below(6) {
+            let i = 1 + rng.below(256) as usize;
+            set[i] = Some(word(rng));
+        }
+        f.sets.push(set);
+    }
+    f.serialize().unwrap()
+}
+
+fn seed_asset(rng: &mut Rng) -> Vec<u8> {
+    let mut b = AssetBinary::new();
+    b.flags = rng.next() as u32;
+    for _ in 0..rng.below(4) {
+        let mut s = AssetSpec::new();
+        if rng.chance(2, 3) {
+            s.name = Some(word(rng));
+        }
+        if rng.chance(1, 2) {
+            s.body_model = Some(word(rng));
+        }
+        if rng.chance(1, 3) {
+            s.voice = Some(word(rng));
+        }
+        if rng.chance(1, 3) {
+            s.use_hair_color = true;
+            s.hair_color = [1, 2, 3, 4];
+        }
+        if rng.chance(1, 3) {
+            s.use_model_size = true;
+            s.model_size = f32::from_bits(rng.next() as u32);
+        }
+        if rng.chance(1, 3) {
+            s.use_unk13 = true;
+            s.unk13 = rng.next() as u32;
+        }
+        b.specs.push(s);
+    }
+    b.serialize().unwrap()
+}
+
+pub fn seed_file(entry: &str, rng: &mut Rng) -> Vec<u8> {
+    match entry {
+        "binLE" => seed_bin(rng, Endian::Little),
+        "binBE" => seed_bin(rng, Endian::Big),
+        "textSjisLE" => seed_text(rng, TextArchiveFormat::ShiftJIS, Endian::Little),
+        "textSjisBE" => seed_text(rng, TextArchiveFormat::ShiftJIS, Endian::Big),
+        "textUniLE" => seed_text(rng, TextArchiveFormat::Unicode, Endian::Little),
+        "textUniBE" => seed_text(rng, TextArchiveFormat::Unicode, Endian::Big),
+        "arc" => seed_arc(rng),
+        "pack" => seed_pack(rng),
+        "aset" => seed_aset(rng),
+        "asset" => seed_asset(rng),
+        _ => panic!("entry {}", entry),
+    }
+}
+
+// ------------------------------------------------------------------------------------------
+// mutations
+// ------------------------------------------------------------------------------------------
+
+const PLANT: [u32; 22] = [
+    0, 1, 2, 3, 4, 5, 7, 8, 0x1F, 0x20, 0x21, 0x100, 0xFFFF, 0x10000, 0x100000, 0x0100_0000, 0x3FFF_FFFF, 0x4000_0000, 0x7FFF_FFFF,
+    0x8000_0000, 0xFFFF_FFF0, 0xFFFF_FFFF,
+];
+
+fn put_u32(v: &mut [u8], at: usize, x: u32, big: bool) {
+    if at + 4 <= v.len() {
+        let b = if big { x.to_be_bytes() } else { x.to_le_bytes() };
+        v[at..at + 4].copy_from_slice(&b);
+    }
+}
+
+fn is_big(entry: &str) -> bool {
+    entry.ends_with("BE") || entry == "pack"
+}
+
+/// Word positions worth planting values into: the header and both tables of a bin image, the
+/// count and entry fields of a pack image.
+fn field_positions(entry: &str, file: &[u8]) -> Vec<usize> {
+    let mut pos = vec![0usize, 4, 8, 12];
+    if entry == "pack" {
+        pos = vec![0, 4, 8, 12, 16, 20, 24, 28, 32, 36];
+        return pos.into_iter().filter(|p| p + 4 <= file.len()).collect();
+    }
+    if file.len() >= 0x20 {
+        let big = is_big(entry);
+        let rd = |at: usize| {
+            let b = [file[at], file[at + 1], file[at + 2], file[at + 3]];
+            (if big { u32::from_be_bytes(b) } else { u32::from_le_bytes(b) }) as usize
+        };
+        let data = rd(4);
+        let np = rd(8);
+        let nl = rd(12);
+        // some data words (pointer / string cells, counts, offsets)
+        for k in 0..(data / 4).min(24) {
+            pos.push(0x20 + 4 * k);
+        }
+        for k in 0..(np + 2 * nl).min(24) {
+            pos.push(0x20 + data + 4 * k);
+        }
+    }
+    pos.into_iter().filter(|p| p + 4 <= file.len()).collect()
+}
+
+fn mutate(entry: &str, file: &[u8], rng: &mut Rng) -> Vec<u8> {
+    let mut v = file.to_vec();
+    match rng.below(10) {
+        0 | 1 | 2 | 3 => {
+            // plant one or two boundary values
+            let pos = field_positions(entry, &v);
+            for _ in 0..rng.range(1, 2) {
+                if pos.is_empty() {
+                    break;
+                }
+                let at = *rng.pick(&pos);
+                let base = match rng.below(4) {
+                    0 => *rng.pick(&PLANT),
+                    1 => v.len() as u32,
+                    2 => (v.len() as u32).wrapping_sub(0x20),
+                    _ => *rng.pick(&PLANT),
+                };
+                let x = base.wrapping_add(rng.below(3) as u32).wrapping_sub(1);
+                put_u32(&mut v, at, x, is_big(entry));
+            }
+        }
+        4 | 5 => {
+            // truncate, preferring field boundaries
+            let cut = if rng.chance(1, 2) { (rng.below(v.len() as u64 / 4 + 1) * 4) as usize } else { rng.below(v.len() as u64 + 1) as usize };
+            v.truncate(cut.min(v.len()));
+        }
+        6 => {
+            // bit flips
+            for _ in 0..rng.range(1, 4) {
+                if v.is_empty() {
+                    break;
+                }
+                let i = rng.below(v.len() as u64) as usize;
+                v[i] ^= 1 << rng.below(8);
+            }
+        }
+        7 => {
+            // overwrite a short range with random bytes
+            if !v.is_empty() {
+                let i = rng.below(v.len() as u64) as usize;
+                let n = rng.range(1, 8) as usize;
+                for k in i..(i + n).min(v.len()) {
+                    v[k] = rng.next() as u8;
+                }
+            }
+        }
+        8 => {
+            // append garbage / zero padding
+            let n = rng.range(1, 40) as usize;
+            if rng.chance(1, 2) {
+                v.extend(std::iter::repeat(0).take(n));
+            } else {
+                v.extend(rng.bytes(n));
+            }
+        }
+        _ => {} // unmodified valid file
+    }
+    v
+}
+
+pub fn gen(seed: u64, tier: &str) -> Vec<String> {
+    let mut rng = Rng::new(seed ^ 0xC05);
+    let per_entry = if tier == "thorough" { 20000 } else { 1500 };
+    let mut lines = Vec::new();
+    let mut n = 0usize;
+    let mut push = |lines: &mut Vec<String>, entry: &str, bytes: &[u8]| {
+        lines.push(format!("c05.{:06} parse {} {}", n, entry, hex(bytes)));
+        n += 1;
+    };
+    for entry in ENTRIES.iter() {
+        // tiny inputs, exhaustively up to length 1 and a few of length 2..3
+        push(&mut lines, entry, &[]);
+        for b in [0u8, 1, 0x10, 0x11, 0x13, 0x20, 0x70, 0x7F, 0x80, 0xFF] {
+            push(&mut lines, entry, &[b]);
+            push(&mut lines, entry, &[b, 0]);
+            push(&mut lines, entry, &[0x70, 0x61, 0x63, 0x6B, b]);
+        }
+        // zero / 0xFF blocks around the header size
+        for len in [4usize, 8, 16, 31, 32, 33, 36, 40, 64, 128] {
+            push(&mut lines, entry, &vec![0u8; len]);
+            push(&mut lines, entry, &vec![0xFFu8; len]);
+        }
+        for i in 0..per_entry {
+            if i % 10 == 9 {
+                let len = rng.below(600) as usize;
+                let b = rng.bytes(len);
+                push(&mut lines, entry, &b);
+            } else {
+                let file = seed_file(entry, &mut rng);
+                let m = mutate(entry, &file, &mut rng);
+                push(&mut lines, entry, &m);
+            }
+        }
+    }
+    lines
+}
+
+// ------------------------------------------------------------------------------------------
+// running one case
+// ------------------------------------------------------------------------------------------
+
+struct Dump {
+    clean: bool,
+    text: String,
+    coarse: String,
+}
+
+fn hs(s: &str, clean: &mut bool) -> String {
+    if !in_sub_alphabet(s) {
+        *clean = false;
+    }
+    hexs(s)
+}
+
+pub fn dump_bin(a: &BinArchive) -> (bool, String, String) {
+    let mut clean = true;
+    let size = a.size();
+    let mut text = Vec::new();
+    let mut ptr = Vec::new();
+    if size >= 4 {
+        for addr in 0..=(size - 4) {
+            if let Ok(Some(s)) = a.read_string(addr) {
+                text.push(format!("{}:{}", addr, hs(&s, &mut clean)));
+            }
+            if let Ok(Some(p)) = a.read_pointer(addr) {
+                ptr.push(format!("{}:{}", addr, p));
+            }
+        }
+    }
+    let labels: Vec<String> = a.all_labels().iter().map(|(k, l)| format!("{}:{}", k, hs(l, &mut clean))).collect();
+    let data = a.read_bytes(0, size).map(|b| hex(b)).unwrap_or_else(|_| "-".into());
+    let full = format!("size={} data={} text=[{}] ptr=[{}] labels=[{}]", size, data, text.join(","), ptr.join(","), labels.join(","));
+    let coarse = format!("size={} ntext={} nptr={} nlabels={}", size, text.len(), ptr.len(), labels.len());
+    (clean, full, coarse)
+}
+
+fn opt(s: &Option<String>, clean: &mut bool) -> String {
+    match s {
+        Some(s) => hs(s, clean),
+        None => "~".into(),
+    }
+}
+
+/// Parses `bytes` with `entry`; returns (class, dump, reserialise class).
+fn parse_entry(entry: &str, bytes: &[u8]) -> (String, Option<Dump>, String) {
+    fn class<T, E>(r: &Result<T, E>) -> &'static str {
+        if r.is_ok() { "ok" } else { "err" }
+    }
+    let reser = |f: &mut dyn FnMut() -> bool| -> String {
+        match no_panic(|| f()) {
+            Ok(true) => "ok".into(),
+            Ok(false) => "err".into(),
+            Err(_) => "panic".into(),
+        }
+    };
+    match entry {
+        "binLE" | "binBE" => {
+            let e = if entry == "binLE" { Endian::Little } else { Endian::Big };
+            let r = BinArchive::from_bytes(bytes, e);
+            let c = class(&r).to_string();
+            match r {
+                Ok(a) => {
+                    let (clean, text, coarse) = dump_bin(&a);
+                    let rs = reser(&mut || a.serialize().is_ok());
+                    (c, Some(Dump { clean, text, coarse }), rs)
+                }
+                Err(_) => (c, None, "-".into()),
+            }
+        }
+        "textSjisLE" | "textSjisBE" | "textUniLE" | "textUniBE" => {
+            let fmt = if entry.starts_with("textSjis") { TextArchiveFormat::ShiftJIS } else { TextArchiveFormat::Unicode };
+            let e = if entry.ends_with("LE") { Endian::Little } else { Endian::Big };
+            let r = TextArchive::from_bytes(bytes, fmt, e);
+            let c = class(&r).to_string();
+            match r {
+                Ok(t) => {
+                    let mut clean = true;
+                    let title = hs(t.get_title(), &mut clean);
+                    let mut ents = Vec::new();
+                    for (k, v) in t.get_entries() {
+                        let key = hs(k, &mut clean);
+                        // UTF-16 messages are arbitrary Unicode: compared in full (hex of UTF-8)
+                        let val = if entry.starts_with("textSjis") { hs(v, &mut clean) } else { hexs(v) };
+                        ents.push(format!("{}={}", key, val));
+                    }
+                    let rs = reser(&mut || t.serialize().is_ok());
+                    let text = format!("title={} entries=[{}]", title, ents.join(","));
+                    (c, Some(Dump { clean, text, coarse: "text".into() }), rs)
+                }
+                Err(_) => (c, None, "-".into()),
+            }
+        }
+        "arc" => {
+            let r = arc::from_bytes(bytes);
+            let c = class(&r).to_string();
+            match r {
+                Ok(m) => {
+                    let mut clean = true;
+                    let mut v: Vec<String> = m.iter().map(|(k, b)| format!("{}={}", hs(k, &mut clean), hex(b))).collect();
+                    v.sort();
+                    (c, Some(Dump { clean, text: format!("files=[{}]", v.join(",")), coarse: "arc".into() }), "-".into())
+                }
+                Err(_) => (c, None, "-".into()),
+            }
+        }
+        "pack" => {
+            let r = fe9_arc::parse(bytes);
+            let c = class(&r).to_string();
+            match r {
+                Ok(m) => {
+                    let mut clean = true;
+                    let v: Vec<String> = m.iter().map(|(k, b)| format!("{}={}", hs(k, &mut clean), hex(b))).collect();
+                    let rs = reser(&mut || fe9_arc::serialize(&m).is_ok());
+                    (c, Some(Dump { clean, text: format!("files=[{}]", v.join(",")), coarse: "pack".into() }), rs)
+                }
+                Err(_) => (c, None, "-".into()),
+            }
+        }
+        "aset" => {
+            let r = BinArchive::from_bytes(bytes, Endian::Little).and_then(|a| ASetFile::from_archive(&a));
+            let c = class(&r).to_string();
+            match r {
+                Ok(f) => {
+                    let mut clean = true;
+                    let meta = opt(&f.meta, &mut clean);
+                    let table: Vec<String> = f.anim_clip_table.iter().enumerate().filter(|(_, s)| s.is_some()).map(|(i, s)| format!("{}:{}", i, opt(s, &mut clean))).collect();
+                    let mut sets = Vec::new();
+                    for s in &f.sets {
+                        let items: Vec<String> = s.iter().enumerate().filter(|(_, x)| x.is_some()).map(|(i, x)| format!("{}:{}", i, opt(x, &mut clean))).collect();
+                        sets.push(format!("{}({})", s.len(), items.join(",")));
+                    }
+                    let rs = reser(&mut || f.serialize().is_ok());
+                    let text = format!("meta={} table={}[{}] sets=[{}]", meta, f.anim_clip_table.len(), table.join(","), sets.join(";"));
+                    let coarse = format!("nsets={}", f.sets.len());
+                    (c, Some(Dump { clean, text, coarse }), rs)
+                }
+                Err(_) => (c, None, "-".into()),
+            }
+        }
+        "asset" => {
+            let r = BinArchive::from_bytes(bytes, Endian::Little).and_then(|a| AssetBinary::from_archive(&a));
+            let c = class(&r).to_string();
+            match r {
+                Ok(b) => {
+                    let mut clean = true;
+                    let mut specs = Vec::new();
+                    for s in &b.specs {
+                        // coarse per-spec fingerprint: name, a few strings, typed presence flags and values
+                        specs.push(format!(
+                            "{}/{}/{}/{}{}{}{}{}{}/{:08x}/{:08x}/{}",
+                            opt(&s.name, &mut clean),
+                            opt(&s.body_model, &mut clean),
+                            opt(&s.voice, &mut clean),
+                            s.use_hair_color as u8,
+                            s.use_skin_color as u8,
+                            s.use_model_size as u8,
+                            s.use_unk3 as u8,
+                            s.use_bitflags as u8,
+                            s.use_unk13 as u8,
+                            s.model_size.to_bits(),
+                            s.unk13,
+                            hex(&s.hair_color)
+                        ));
+                        for f in crate::fam::parsers::all_strings(s) {
+                            if let Some(x) = f {
+                                if !in_sub_alphabet(x) {
+                                    clean = false;
+                                }
+                            }
+                        }
+                    }
+                    let rs = reser(&mut || b.serialize().is_ok());
+                    let text = format!("flags={} specs=[{}]", b.flags, specs.join(";"));
+                    let coarse = format!("flags={} nspecs={}", b.flags, b.specs.len());
+                    (c, Some(Dump { clean, text, coarse }), rs)
+                }
+                Err(_) => (c, None, "-".into()),
+            }
+        }
+        _ => panic!("entry {}", entry),
+    }
+}
+
+pub fn all_strings(s: &AssetSpec) -> Vec<&Option<String>> {
+    vec![
+        &s.name, &s.conditional1, &s.conditional2, &s.body_model, &s.body_texture, &s.head_model, &s.head_texture, &s.hair_model,
+        &s.hair_texture, &s.outer_clothing_model, &s.outer_clothing_texture, &s.underwear_model, &s.underwear_texture, &s.mount_model,
+        &s.mount_texture, &s.mount_outer_clothing_model, &s.mount_outer_clothing_texture, &s.weapon_model_dual, &s.weapon_model,
+        &s.skeleton, &s.mount_skeleton, &s.accessory1_model, &s.accessory1_texture, &s.accessory2_model, &s.accessory2_texture,
+        &s.accessory3_model, &s.accessory3_texture, &s.attack_animation, &s.attack_animation2, &s.visual_effect, &s.hid,
+        &s.footstep_sound, &s.clothing_sound, &s.voice,
+    ]
 }
 
 pub fn run_line(_st: &mut super::State, line: &str) -> String {
-    let id = line.split(' ').next().unwrap_or("?");
-    format!("{} unimplemented", id)
+    let f: Vec<&str> = line.split(' ').collect();
+    let id = f[0];
+    let entry = f[2];
+    let bytes = unhex(f[3]);
+    let taint = tainted(&bytes);
+    crate::alloc::max_request_reset();
+    let r = no_panic(|| parse_entry(entry, &bytes));
+    let max_req = crate::alloc::max_request_reset();
+    let bound = 256 * bytes.len() + 65536;
+    let req = if max_req <= bound { "ok".to_string() } else { format!("BIG:{}", max_req) };
+    match r {
+        Err(_) => format!("{} panic req={} reser=-", id, req),
+        Ok((class, dump, reser)) => {
+            let content = match dump {
+                None => String::new(),
+                Some(d) => {
+                    if d.clean && !taint {
+                        format!(" clean {}", d.text)
+                    } else {
+                        format!(" dirty {}", d.coarse)
+                    }
+                }
+            };
+            format!("{} {} req={} reser={}{}", id, class, req, reser, content)
+        }
+    }
 }
